@@ -55,6 +55,7 @@ class Profile:
     p_near_tie: float = 0.0
     min_cont_states: int = 0
     min_disc_states: int = 0
+    p_period_only_in_constraints: float = 0.0
     p_next_dependent_constraint: float = 0.15
     max_RC: int = 2
     min_RC: int = 0
@@ -182,6 +183,11 @@ def model_specs(draw, prof: Profile = Profile()):
     T = d.int(prof.min_periods, prof.max_periods)
     b.T = T
     Tp = T if prof.allow_period else 1  # period-dependent features only if allowed
+    Tc = Tp  # period dependence of constraint tables
+    if T >= 3 and prof.p_period_only_in_constraints and d.bool(prof.p_period_only_in_constraints):
+        # the period enters the model ONLY through a constraint (utility, transitions, filters and
+        # auxiliary functions are period-free)
+        Tp, Tc = 1, T
     fully_discrete = d.bool(prof.fully_discrete) if prof.fully_discrete else False
     nds = d.int(min(prof.min_disc_states, prof.max_disc_states), prof.max_disc_states)
     ncs = 0 if fully_discrete else d.int(min(prof.min_cont_states, prof.max_cont_states), prof.max_cont_states)
@@ -430,13 +436,13 @@ def model_specs(draw, prof: Profile = Profile()):
             args=list(dict.fromkeys(args)), body=f"{margin} >= 0", margin=margin
         )
         bonus_terms.append((f"(1.0 - 1.0 * ({margin_inl} >= 0))", var_args))
-    if dchoices and d.bool(prof.p_table_constraint):
+    if dchoices and (Tc != Tp or d.bool(prof.p_table_constraint)):
         ch_ = d.subset(dchoices, 1, 2)
         st_ = d.subset(dstates, 0, 2)
         st_ = [s for s in dstates if s in st_]
         ch_ = [c for c in dchoices if c in ch_]
         over = st_ + ch_
-        perk = Tp > 1 and d.bool(0.3)
+        perk = Tc > 1 and (Tc != Tp or d.bool(0.3))
         free = d.bool(prof.free_constraints)
 
         def g(shp):
@@ -580,7 +586,9 @@ def model_specs(draw, prof: Profile = Profile()):
         g = states[w]
         bound = round(float(grid_nodes(g)[0]) - d.num(0.0, 0.6) * (float(grid_nodes(g)[-1]) - float(grid_nodes(g)[0])) * 0.2, 4)
         margin = f"next_{w} - {bound} + 1.7e-06"
-        functions["nextdep_constraint"] = dict(args=[f"next_{w}"], body=f"{margin} >= 0", margin=margin)
+        # the name may itself start with next_ (it is still a constraint: the suffix decides)
+        cname = f"next_{w}_constraint" if d.bool(0.5) else "nextdep_constraint"
+        functions[cname] = dict(args=[f"next_{w}"], body=f"{margin} >= 0", margin=margin)
     # near ties: a discrete choice whose only effect is a tiny utility difference, so that two
     # alternatives differ by far less than any sensible tolerance without being equal
     if prof.p_near_tie and d.bool(prof.p_near_tie):
